@@ -227,4 +227,24 @@ Definition SetPayload_m (p : bytes) (data : bytes) : bytes * Res N :=
   if PacketSize <? offset then (p', Panic) else
   (blit p' offset data, Ok (N.min (len data) (PacketSize - offset))).
 
+(* nested module: `Import Packet` does not bring these names into scope *)
+Module Consts.
+(* ---- exported constants of packet/packet.go and packet/adaptationfield.go, in source order (coverage: notes/coverage.md) ---- *)
+Definition PayloadFlag : N := 1.
+Definition AdaptationFieldFlag : N := 2.
+Definition PayloadAndAdaptationFieldFlag : N := 3.
+Definition NoScrambleFlag : N := 0.
+Definition ScrambleEvenKeyFlag : N := 2.
+Definition ScrambleOddKeyFlag : N := 3.
+Definition exported_consts : list N :=
+  [PayloadFlag; AdaptationFieldFlag; PayloadAndAdaptationFieldFlag; PacketSize; SyncByte; NullPacketPid; NoScrambleFlag; ScrambleEvenKeyFlag; ScrambleOddKeyFlag].
+End Consts.
+
+(* (p *Packet) AdaptationField(): the packet itself viewed as *AdaptationField, or (nil, ErrNoAdaptationField) *)
+Definition AdaptationField_m (p : bytes) : Res bytes :=
+  if HasAdaptationField p then Ok p else Err E.NoAdaptationField.
+(* NewAdaptationField(): p := New(); p.SetAdaptationFieldControl(AdaptationFieldFlag); af, _ := p.AdaptationField(); return af
+   (the error of SetAdaptationFieldControl is dropped by the code; Err = the nil pointer) *)
+Definition NewAdaptationField : Res bytes := AdaptationField_m (fst (SetAdaptationFieldControl New 2)).
+
 End Packet.
